@@ -290,3 +290,37 @@ func TestDeterministicReplay(t *testing.T) {
 	}
 	t.Logf("perms: %q stats=%+v", got, st)
 }
+
+func TestUnboundedMode(t *testing.T) {
+	prog := func(out *[]string) {
+		ch := MakeChan[int](0, "ch")
+		for i := 0; i < 4; i++ {
+			i := i
+			Go("s", func() { s := NewSend(ch); s.V = i; s.Do("s") })
+		}
+		var got []int
+		for i := 0; i < 4; i++ {
+			got = append(got, Recv(ch, "r"))
+		}
+		*out = append(*out, fmt.Sprint(got))
+	}
+	set := map[string]bool{}
+	x := &Explorer{Unbounded: true}
+	x.Run = func(c Chooser, trace bool) *Result {
+		var out []string
+		e := Run(Config{Chooser: c}, func() { prog(&out) })
+		r := &Result{Points: e.Points(), Steps: e.Steps(), Reason: e.Reason()}
+		if e.Reason() != EndTruncated {
+			set[strings.Join(out, ",")] = true
+		}
+		e.Finish()
+		return r
+	}
+	if f := x.Explore(); f != nil {
+		t.Fatal(f)
+	}
+	if len(set) != 24 || !x.Stats.Exhaustive {
+		t.Errorf("unbounded mode: %d outcomes (want 24), stats %+v", len(set), x.Stats)
+	}
+	t.Logf("unbounded: executions=%d states=%d truncated=%d", x.Stats.Executions, x.Stats.States, x.Stats.Truncated)
+}
